@@ -37,13 +37,6 @@ theorem Ext.mono {L L' : Nat} {s s' : HState α} (h : Ext L s s') (hl : L ≤ L'
 /-- the cell was created by the node with key `K` or by a node below it -/
 def OwnerOK (K o : NodeKey) : Prop := o.1 = K.1 ∧ K.2 <+: o.2
 
-/-- nodes reachable from `root` through children and sub-nodes -/
-inductive Reach (root : Node α) : Node α → Prop
-  | refl : Reach root root
-  | child (d : NodeData α) (s : List (Option (Node α))) (ch : List (Nat × Node α)) (p : Nat × Node α) :
-      Reach root (.branch d s ch) → p ∈ ch → Reach root p.2
-  | sub (n m : Node α) : Reach root n → some m ∈ n.subnodes → Reach root m
-
 /-- a node whose range may be released: a branch (it was split, so it passed the filter then and entities only
 accumulate), or a leaf that passes the filter now -/
 def Releasable (E : Env α) (c : FCtx α) (m : Node α) : Prop :=
